@@ -10,10 +10,9 @@ use penguin_mux::timing::Backoff;
 include!("callsite.rs");
 
 fn expected(k: u32, max: Duration) -> Duration {
-    // 200 ms * 2^k, saturating well above any Duration the generator can reach in 16 steps
-    let ms: u64 = 200u64 << k;
-    let d = Duration::from_millis(ms);
-    if d < max { d } else { max }
+    // min(200 ms * 2^k, max) in 128-bit arithmetic (k < 100 in every instance)
+    let ms: u128 = (callsite::INITIAL_MS as u128) << (if k < 100 { k } else { 100 });
+    if ms < max.as_millis() { Duration::from_millis(ms as u64) } else { max }
 }
 
 /// K consecutive failures, then a reset (successful connection), then one more failure.
@@ -73,6 +72,33 @@ fn generic<const K: u32>() {
     kani::cover!(true, "schedule evaluated");
 }
 
+/// A long outage with CONCRETE parameters (so that the run is a plain execution, however many
+/// failures): N consecutive failures, a successful connection, N more.  The command-line
+/// defaults (300 s cap, no retry limit) and a capped, limited configuration.
+fn long_outage<const N: u32>(max_ms: u64, max_count: u32) {
+    let max = Duration::from_millis(max_ms);
+    let mut b = Backoff::new(Duration::from_millis(callsite::INITIAL_MS), max, callsite::MULT, max_count);
+    let mut round = 0;
+    while round < 2 {
+        let mut k = 0;
+        while k < N {
+            let got = b.advance();
+            if max_count != 0 && k >= max_count {
+                assert!(got.is_none(), "P:C19 back-off keeps retrying after max_retry_count consecutive failures");
+            } else {
+                match got {
+                    None => panic!("P:C19 back-off gives up before max_retry_count failures (or although it is 0)"),
+                    Some(d) => assert!(d == expected(k, max), "P:C19 k-th delay is not min(200 ms * 2^k, max_retry_interval)"),
+                }
+            }
+            k += 1;
+        }
+        b.reset();
+        round += 1;
+    }
+    kani::cover!(true, "schedule evaluated");
+}
+
 macro_rules! h {
     ($name:ident, $unwind:literal, $body:expr) => {
         #[kani::proof]
@@ -86,5 +112,8 @@ h!(c19_schedule_k1, 4, schedule::<1>());
 h!(c19_schedule_k3, 6, schedule::<3>());
 h!(c19_schedule_k6, 9, schedule::<6>());
 h!(c19_schedule_k12, 15, schedule::<12>());
+h!(c19_long_outage_defaults_n70, 72, long_outage::<70>(300_000, 0));
+h!(c19_long_outage_cap1s_limit40_n45, 47, long_outage::<45>(1_000, 40));
+h!(c19_long_outage_nocap_n66, 68, long_outage::<66>(u64::MAX / 4, 0));
 h!(c19_generic_k3, 6, generic::<3>());
 h!(c19_generic_k6, 9, generic::<6>());
